@@ -59,6 +59,7 @@ class State:
         self.next_oid = FRESH_BASE
         self.trace: tuple = ()         # branch decisions (line numbers) for path naming
         self.exc_stack: tuple = ()     # exceptions being handled (for bare `raise`)
+        self.private: frozenset = frozenset()   # fresh oids that were never stored in the heap / passed to unknown code
 
     def fork(self) -> 'State':
         s = State.__new__(State)
@@ -71,6 +72,7 @@ class State:
         s.next_oid = self.next_oid
         s.trace = self.trace
         s.exc_stack = self.exc_stack
+        s.private = self.private
         return s
 
     # -- heap arrays -------------------------------------------------------
@@ -91,6 +93,7 @@ class State:
 
     def havoc_heap(self, keep=()):
         """Forget everything about the heap except the arrays named in `keep` (and ghost arrays)."""
+        old_arr = dict(self.arr)
         kept = {k: v for k, v in self.arr.items() if k in keep or k.startswith('g:') or k == 'C'}
         # class ids of existing objects never change
         old_epoch = self.epoch
@@ -101,6 +104,13 @@ class State:
             kept['C'] = z3.Const(f'H{old_epoch}.C', arr_sort('C'))
         self.arr = kept
         self.epoch = self.ctx.new_epoch()
+        # objects allocated by this execution that never escaped keep their contents (unknown code cannot reach them)
+        for oid in sorted(self.private):
+            o = z3.IntVal(oid)
+            for name, a_old in old_arr.items():
+                if name in kept:
+                    continue
+                self.arr[name] = z3.Store(self.get_arr(name), o, z3.Select(a_old, o))
 
     def havoc_arrays(self, names):
         for n in names:
@@ -123,6 +133,7 @@ class State:
     def alloc(self, cls=None, path=None) -> V:
         oid = self.next_oid
         self.next_oid += 1
+        self.private = self.private | {oid}
         v = vref(oid, cls=cls, path=path)
         if cls is not None:
             cid = self.ctx.class_id(cls)
@@ -158,7 +169,22 @@ class State:
     def set_list_seq(self, v: V, seq):
         self.arr['L'] = z3.Store(self.get_arr('L'), v.e, seq)
 
+    def escape(self, v: V):
+        """Mark a value as reachable by unknown code (stored in the heap or handed to an unknown callee)."""
+        if v.kind == 'ref' and self.private:
+            e = z3.simplify(v.e)
+            if z3.is_int_value(e) and e.as_long() in self.private:
+                self.private = self.private - {e.as_long()}
+        elif v.kind == 'tuple':
+            for x in v.py:
+                self.escape(x)
+        elif v.kind == 'any' and self.private:
+            k = z3.simplify(v.e)
+            if z3.is_app(k) and k.decl().name() == 'ref' and z3.is_int_value(k.arg(0)):
+                self.private = self.private - {k.arg(0).as_long()}
+
     def box(self, v: V):
+        self.escape(v)
         if v.kind == 'tuple':
             # immutable tuple stored in the heap: boxed as an object whose L entry holds the items
             t = self.alloc('tuple')
